@@ -184,16 +184,19 @@ pub struct GenOpts {
     pub mutate16: u64,
     /// steer RSP into the stack arena for every case (stack properties)
     pub steer_rsp: bool,
+    /// probability (out of 16) that the memory operand is re-emitted by the raw ModRM/SIB emitter
+    /// (all mod/rm/SIB shapes incl. redundant ones that an assembler never produces)
+    pub raw_modrm16: u64,
 }
 
 pub const AIMS: [Aim; 9] = [Aim::RwInside, Aim::RwLast, Aim::RwStraddleEnd, Aim::RwStraddleStart, Aim::RoInside, Aim::StackInside, Aim::CodeInside, Aim::Guard, Aim::Far];
 
 impl GenOpts {
     pub fn benign(forms: Vec<usize>) -> GenOpts {
-        GenOpts { forms, mem16: 8, aim_w: [40, 4, 0, 0, 2, 3, 1, 0, 0], allow_gs: true, allow_fs: false, allow_addr32: true, allow_nullseg: true, mutate16: 1, steer_rsp: false }
+        GenOpts { forms, mem16: 8, aim_w: [40, 4, 0, 0, 2, 3, 1, 0, 0], allow_gs: true, allow_fs: false, allow_addr32: true, allow_nullseg: true, mutate16: 1, steer_rsp: false, raw_modrm16: 2 }
     }
     pub fn faulty(forms: Vec<usize>) -> GenOpts {
-        GenOpts { forms, mem16: 12, aim_w: [12, 8, 8, 4, 10, 3, 6, 6, 4], allow_gs: true, allow_fs: false, allow_addr32: true, allow_nullseg: true, mutate16: 1, steer_rsp: false }
+        GenOpts { forms, mem16: 12, aim_w: [12, 8, 8, 4, 10, 3, 6, 6, 4], allow_gs: true, allow_fs: false, allow_addr32: true, allow_nullseg: true, mutate16: 1, steer_rsp: false, raw_modrm16: 2 }
     }
 }
 
@@ -649,6 +652,23 @@ pub fn gen_case(t: &mut Tape, forms: &[Form], o: &GenOpts) -> Option<NCase> {
     }
     let (ins, plan, mut bytes) = chosen?;
 
+    // ---- raw ModRM/SIB emitter: re-emit the memory operand byte by byte
+    if let Some(p) = &plan {
+        let has_high8 = (0..ins.op_count()).any(|i| ins.op_kind(i) == OpKind::Register && matches!(ins.op_register(i), Register::AH | Register::CH | Register::DH | Register::BH));
+        if o.raw_modrm16 > 0 && t.below(16) < o.raw_modrm16 && p.disp_kind != 3 && !has_high8 && p.seg == Register::None {
+            let size = ins_mem_size(&ins);
+            let target = if mnem == Mnemonic::Lea { t.val64() } else { aim_target(t, p.aim, size) };
+            if let Some((rb, sets, shape)) = raw_modrm(t, code, &ins, rip, target) {
+                bytes = rb;
+                for (r, v) in sets {
+                    gpr[r] = v;
+                }
+                note = format!("raw-modrm {} target={:#x} ", shape, target);
+                patches.clear();
+            }
+        }
+    }
+
     // ---- per-mnemonic steering of implicit operands
     match mnem {
         Mnemonic::Shl | Mnemonic::Shr => {
@@ -943,6 +963,190 @@ fn steer_div(t: &mut Tape, ins: &Instruction, gpr: &mut [u64; 16], patches: &mut
         gpr[0] = (gpr[0] & !mask) | lo;
         gpr[2] = (gpr[2] & !mask) | hi;
     }
+}
+
+/// Re-emit `ins` (which has exactly one memory operand) with a freshly chosen ModRM/SIB/displacement shape:
+/// mod 0/1/2 × rm (with or without SIB) × SIB base (incl. base=5 with mod 0 → no base) × index (4 = none) ×
+/// scale × REX.X/REX.B × optional 0x67. The register values are solved so that the operand addresses
+/// `target`. Returns the bytes, the registers to set and a shape label; None if this form cannot be re-emitted.
+fn raw_modrm(t: &mut Tape, code: Code, ins: &Instruction, rip: u64, target: u64) -> Option<(Vec<u8>, Vec<(usize, u64)>, String)> {
+    // 1. encode with the placeholder operand [rax]: ModRM is then the last byte before the immediate(s)
+    let mut ph = *ins;
+    ph.set_memory_base(Register::RAX);
+    ph.set_memory_index(Register::None);
+    ph.set_memory_index_scale(1);
+    ph.set_memory_displacement64(0);
+    ph.set_memory_displ_size(0);
+    ph.set_segment_prefix(Register::None);
+    let mut e = Encoder::new(64);
+    e.encode(&ph, rip).ok()?;
+    let co = e.get_constant_offsets();
+    let b0 = e.take_buffer();
+    let imm = co.immediate_size() + co.immediate_size2();
+    if b0.len() < imm + 2 {
+        return None;
+    }
+    let mi = b0.len() - imm - 1;
+    let modrm0 = b0[mi];
+    if modrm0 >> 6 != 0 || modrm0 & 7 != 0 {
+        return None;
+    }
+    // 2. locate / create the REX prefix
+    let npre = b0.iter().take_while(|b| is_legacy_prefix(**b)).count();
+    let mut head: Vec<u8> = b0[..mi].to_vec();
+    let has_rex = head.get(npre).map(|b| b & 0xf0 == 0x40).unwrap_or(false);
+    // 3. choose the shape
+    let addr32 = t.below(8) == 0;
+    let m: u64 = if addr32 { 0xffff_ffff } else { u64::MAX };
+    let md = t.below(3) as u8;
+    let use_sib = t.below(2) == 0;
+    let base = t.below(16) as u8;
+    let index = t.below(16) as u8; // 4 = none
+    let scale_bits = t.below(4) as u8;
+    let (mut rex_b, mut rex_x) = (0u8, 0u8);
+    let mut tail: Vec<u8> = vec![];
+    let mut sets: Vec<(usize, u64)> = vec![];
+    let mut shape;
+    let a = target & m;
+    let junk = |t: &mut Tape, v: u64| if addr32 { (v & 0xffff_ffff) | (t.raw() << 32) } else { v };
+    if !use_sib {
+        if base & 7 == 4 {
+            return None; // rm = 4 means SIB
+        }
+        if md == 0 && base & 7 == 5 {
+            // RIP-relative disp32
+            let next = rip + (head.len() + if has_rex || base >= 8 { 0 } else { 0 }) as u64; // patched below once the length is known
+            let _ = next;
+            shape = "mod0-rm5-riprel".to_string();
+            tail.push(modrm0 | 5);
+            // displacement is relative to the end of the instruction; computed after assembly
+            tail.extend_from_slice(&[0, 0, 0, 0]);
+        } else {
+            rex_b = base >> 3;
+            let d: i64 = match md {
+                0 => 0,
+                1 => t.raw() as i8 as i64,
+                _ => t.raw() as i32 as i64,
+            };
+            shape = format!("mod{}-rm{}", md, base);
+            tail.push(modrm0 | (md << 6) | (base & 7));
+            match md {
+                1 => tail.push(d as u8),
+                2 => tail.extend_from_slice(&(d as i32).to_le_bytes()),
+                _ => {}
+            }
+            sets.push((base as usize, junk(t, a.wrapping_sub(d as u64) & m)));
+        }
+    } else {
+        if index == 4 && t.below(2) == 0 {
+            // keep "no index" frequent: the redundant SIB forms
+        }
+        rex_b = base >> 3;
+        rex_x = index >> 3;
+        let no_index = index == 4;
+        let no_base = md == 0 && base & 7 == 5;
+        let scale = 1u64 << scale_bits;
+        let idx_val: u64 = if no_index {
+            0
+        } else {
+            (match t.below(6) {
+                0 => 0,
+                1 => 1,
+                2 => u64::MAX,
+                3 => t.below(64),
+                4 => 0x8000_0000_0000_0000 | t.below(16),
+                _ => t.raw(),
+            }) & m
+        };
+        let d: i64 = if no_base {
+            0 // solved below
+        } else {
+            match md {
+                0 => 0,
+                1 => t.raw() as i8 as i64,
+                _ => t.raw() as i32 as i64,
+            }
+        };
+        shape = format!("mod{}-sib-b{}-i{}-s{}", md, if no_base { "none".to_string() } else { base.to_string() }, if no_index { "none".to_string() } else { index.to_string() }, scale);
+        tail.push(modrm0 | (md << 6) | 4);
+        tail.push((scale_bits << 6) | ((index & 7) << 3) | (base & 7));
+        if no_base {
+            // disp32 absorbs the rest: needs index*scale + sext(disp32) == a
+            let k = if no_index { 0 } else { t.below(64) };
+            let dd = (a as i64).wrapping_sub((k.wrapping_mul(scale)) as i64);
+            if !addr32 && dd as i32 as i64 != dd {
+                return None;
+            }
+            tail.extend_from_slice(&(dd as i32).to_le_bytes());
+            if !no_index {
+                sets.push((index as usize, junk(t, k)));
+            }
+        } else {
+            match md {
+                1 => tail.push(d as u8),
+                2 => tail.extend_from_slice(&(d as i32).to_le_bytes()),
+                _ => {}
+            }
+            if !no_index && index == base {
+                // reg*(1+scale) + d = a: only solvable in general when 1+scale is odd
+                let f = 1 + scale;
+                if f % 2 == 0 {
+                    let v = a.wrapping_sub(d as u64);
+                    if v % 2 != 0 {
+                        return None;
+                    }
+                    sets.push((base as usize, junk(t, (v / 2) & m)));
+                } else {
+                    let mut inv = f;
+                    for _ in 0..6 {
+                        inv = inv.wrapping_mul(2u64.wrapping_sub(f.wrapping_mul(inv)));
+                    }
+                    sets.push((base as usize, junk(t, a.wrapping_sub(d as u64).wrapping_mul(inv) & m)));
+                }
+            } else {
+                if !no_index {
+                    sets.push((index as usize, junk(t, idx_val)));
+                }
+                sets.push((base as usize, junk(t, a.wrapping_sub(idx_val.wrapping_mul(scale)).wrapping_sub(d as u64) & m)));
+            }
+        }
+    }
+    // 4. REX
+    if rex_b != 0 || rex_x != 0 {
+        if has_rex {
+            head[npre] |= rex_b | (rex_x << 1);
+        } else {
+            head.insert(npre, 0x40 | rex_b | (rex_x << 1));
+        }
+    } else if !has_rex && t.below(8) == 0 {
+        head.insert(npre, 0x40); // a REX prefix without any bit set (redundant)
+        shape.push_str("-rex40");
+    }
+    if addr32 {
+        head.insert(0, 0x67);
+        shape.push_str("-a32");
+    }
+    let mut out = head;
+    let disp_pos = out.len() + 1;
+    out.extend_from_slice(&tail);
+    out.extend_from_slice(&b0[mi + 1..]);
+    if shape.starts_with("mod0-rm5-riprel") {
+        let end = rip + out.len() as u64;
+        let rel = if addr32 { ((target & 0xffff_ffff) as i64).wrapping_sub((end & 0xffff_ffff) as i64) } else { (target as i64).wrapping_sub(end as i64) };
+        if rel as i32 as i64 != rel {
+            return None;
+        }
+        out[disp_pos..disp_pos + 4].copy_from_slice(&(rel as i32).to_le_bytes());
+    }
+    if out.len() > 15 {
+        return None;
+    }
+    // 5. it must decode to the same form with a memory operand
+    let di = Decoder::with_ip(64, &out, rip, DecoderOptions::NONE).decode();
+    if di.is_invalid() || di.len() != out.len() || di.code() != code {
+        return None;
+    }
+    Some((out, sets, shape))
 }
 
 const PREFIXES: [u8; 11] = [0x66, 0x67, 0xf2, 0xf3, 0x2e, 0x36, 0x3e, 0x26, 0x64, 0x65, 0xf0];
